@@ -136,6 +136,8 @@ TxViol(e) ==
 
 RetViol(e) ==
   Check("C05", "no-panic-no-hang", ~Has(e, "panic") /\ ~Has(e, "hang"))
+  \* a call the watchdog gave up on long after its context's deadline (whatever went before on the connection)
+  \cup Check("C13", "returns-once-its-context-has-expired", ~(Has(e, "hang") /\ Has(e, "ctxMs") /\ e.ctxMs + 1000 <= e.wdogMs))
   \cup
   (IF Has(e, "panic") \/ Has(e, "hang") \/ ~Has(e, "err") THEN {}
    ELSE LET hasA == Has(lastRx, "attrs")
